@@ -99,3 +99,18 @@ def facts(repo, f, H):
     if "b := newMeasureBatchForSchema(schema, mergeBatchMaxRows) var lastVersion int64 var lastSid common.SeriesID for qr.Len() > 0" not in mbt:
         raise ValueError("banyand/measure/query_batch.go: mergeBatch no longer starts every batch from scratch")
     f["batchReplaceStrict"] = True
+
+    # liaison-side merge of node answers: sortedMIterator.loadOneGroup (the parts of a series may live on several nodes)
+    rel = "pkg/query/logical/measure/measure_plan_distributed.go"
+    log = _norm(H.strip_comments(body(repo, rel, r"func \(s \*sortedMIterator\) loadOneGroup\(", H)))
+    for frag in ("first := s.Iterator.Val() s.uniqueData[hashDataPoint(first.GetDataPoint())] = first.InternalDataPoint",
+                 "v := s.Iterator.Val() if bytes.Equal(first.SortedField(), v.SortedField()) { key := hashDataPoint(v.GetDataPoint()) "
+                 "if existed, ok := s.uniqueData[key]; ok { if v.GetDataPoint().Version > existed.GetDataPoint().Version { "
+                 "s.uniqueData[key] = v.InternalDataPoint } } else { s.uniqueData[key] = v.InternalDataPoint } } else { break }"):
+        if frag not in log:
+            raise ValueError(rel + ": unrecognised version de-dup in sortedMIterator.loadOneGroup (%s)" % frag[:40])
+    hd = _norm(H.strip_comments(body(repo, rel, r"func hashDataPoint\(", H)))
+    if ("h = (h ^ dp.Sid) * prime64 h = (h ^ uint64(dp.Timestamp.Seconds)) * prime64 h = (h ^ uint64(dp.Timestamp.Nanos)) * prime64 return h"
+            not in hd):
+        raise ValueError(rel + ": hashDataPoint no longer keys on (sid, timestamp)")
+    f["nodeDedupGreaterVersion"] = True
